@@ -259,6 +259,48 @@ def regenerate(repo, outdir):
         fl.append(f"def {k} : Bool := {'true' if v else 'false'}")
     fl += ["", "end Askar.Generated.Flags", ""]
     write_if_changed(os.path.join(outdir, "Flags.lean"), "\n".join(fl))
+    # --- small TABLES of the source, as data (obligations in Props/C19, C13, C01 compare the models' tables with them by `decide`)
+    def enum_table(rel, name):
+        m = re.search(r"pub enum " + name + r"\s*\{(.*?)\n\}", read(repo, rel), re.S)
+        if not m:
+            raise RuntimeError(f"{rel}: enum {name} not found")
+        rows = re.findall(r"^\s*([A-Za-z0-9_]+)\s*=\s*(\d+)\s*,", m.group(1), re.M)
+        if not rows:
+            raise RuntimeError(f"{rel}: enum {name} has no explicit discriminants")
+        return rows
+    codes = enum_table("src/ffi/error.rs", "ErrorCode")
+    m = re.search(r"impl From<ErrorKind> for ErrorCode\s*\{.*?match kind\s*\{(.*?)\}", read(repo, "src/ffi/error.rs"), re.S)
+    if not m:
+        raise RuntimeError("src/ffi/error.rs: impl From<ErrorKind> for ErrorCode not found")
+    kind_map = re.findall(r"ErrorKind::([A-Za-z]+)\s*=>\s*ErrorCode::([A-Za-z]+)", m.group(1))
+    kinds = enum_table("askar-storage/src/entry.rs", "EntryKind")
+    def usize_const(rel, name):
+        m = re.search(r"pub const " + name + r":\s*usize\s*=\s*(\d+)\s*;", read(repo, rel))
+        if not m:
+            raise RuntimeError(f"{rel}: const {name} not found as a literal")
+        return int(m.group(1))
+    sig_len = [("es256", usize_const("askar-crypto/src/alg/p256.rs", "ES256_SIGNATURE_LENGTH")),
+               ("es256k", usize_const("askar-crypto/src/alg/k256.rs", "ES256K_SIGNATURE_LENGTH")),
+               ("es384", usize_const("askar-crypto/src/alg/p384.rs", "ES384_SIGNATURE_LENGTH"))]
+    sec_len = [("p256", usize_const("askar-crypto/src/alg/p256.rs", "SECRET_KEY_LENGTH")),
+               ("k256", usize_const("askar-crypto/src/alg/k256.rs", "SECRET_KEY_LENGTH")),
+               ("p384", usize_const("askar-crypto/src/alg/p384.rs", "SECRET_KEY_LENGTH")),
+               ("x25519", usize_const("askar-crypto/src/alg/x25519.rs", "SECRET_KEY_LENGTH"))]
+    def pairs(rows, num=True):
+        return "[" + ", ".join(f"({lean_str(a)}, {b if num else lean_str(b)})" for a, b in rows) + "]"
+    tb = ["/- GENERATED by tools/extract.py from /repo on every run — do not edit. -/", "namespace Askar.Generated.Tables", "",
+          "/-- `#[repr(i64)] enum ErrorCode` (src/ffi/error.rs): variant name, discriminant -/",
+          f"def ffiErrorCodes : List (String × Nat) := {pairs(codes)}", "",
+          "/-- `impl From<ErrorKind> for ErrorCode`: ErrorKind variant, ErrorCode variant -/",
+          f"def ffiCodeOfKind : List (String × String) := {pairs(kind_map, num=False)}", "",
+          "/-- `enum EntryKind` (askar-storage/src/entry.rs): the integer stored in `items.kind` -/",
+          f"def entryKinds : List (String × Nat) := {pairs(kinds)}", "",
+          "/-- `ES256_SIGNATURE_LENGTH` / `ES256K_…` / `ES384_…` (askar-crypto/src/alg/{{p256,k256,p384}}.rs) -/".replace("{{", "{").replace("}}", "}"),
+          f"def ecdsaSignatureLengths : List (String × Nat) := {pairs(sig_len)}", "",
+          "/-- `SECRET_KEY_LENGTH` of the key types that declare it as a literal -/",
+          f"def secretKeyLengths : List (String × Nat) := {pairs(sec_len)}", "",
+          "end Askar.Generated.Tables", ""]
+    write_if_changed(os.path.join(outdir, "Tables.lean"), "\n".join(tb))
     # --- C09: constants of the storage scheme (field names, sizes, Argon2 parameter sets, schema, config rows)
     import extract_c09
     extract_c09.regenerate(repo, outdir)
